@@ -195,7 +195,7 @@ func createdRev(so *StepObs) int {
 }
 
 func isDryOp(op *OpSpec) bool {
-	return op.DryRun || op.DryRunOption == "client" || op.DryRunOption == "server" || op.DryRunOption == "true" || op.ClientOnly
+	return op.DryRun || op.DryRunOption == "client" || op.DryRunOption == "server" || op.DryRunOption == "true" || op.ClientOnly || op.Op == "cli"
 }
 
 // clusterMatches checks C02 (a): every document of the manifest exists live
